@@ -600,16 +600,19 @@ pub fn ref_encode(ty: &Ty, v: &Val) -> Result<Vec<u8>, EncErr> {
     Ok(e.out)
 }
 
-/// sequence positions draw their form from `choose`, tuple positions their writer's version from `newer`
+/// sequence positions draw their form from `choose`, tuple positions their writer's version from `newer`, and a
+/// deduplicated string that is already known is written in full again when `full` says so (it keeps its id)
 pub fn ref_encode_newer_tuples(
     ty: &Ty,
     v: &Val,
     choose: &mut dyn FnMut() -> bool,
     newer: &mut dyn FnMut() -> u32,
+    full: &mut dyn FnMut() -> bool,
 ) -> Result<Vec<u8>, EncErr> {
     let mut e = Enc::new();
     e.unknown_form = Some(choose);
     e.tuple_newer = Some(newer);
+    e.dedup_full = Some(full);
     e.encode(ty, v)?;
     Ok(e.out)
 }
